@@ -870,6 +870,20 @@ def m_for_each(I, st, c, args, cont, depth, site):
           lambda st2, p, acc: cont(st2, PANIC if p is PANIC else unit()))
 
 
+@model(r' as (std::iter::)?Iterator>::sum::<(u8|u16|u32|u64|usize)>$', 'Iterator::sum of unsigned integers (overflow is a panic, as with overflow-checks on)')
+def m_sum(I, st, c, args, cont, depth, site):
+    ty = re.search(r'sum::<(\w+)>$', c).group(1)
+    w = {'u8': 8, 'u16': 16, 'u32': 32, 'u64': 64, 'usize': 64}[ty]
+    it = to_iter(I, st, args[0])
+
+    def each(st2, x, acc, k):
+        xt = x.t if isinstance(x, BV) else I.deref(st2, x).t
+        tot = z3.simplify(acc + xt)
+        ovf = z3.simplify(z3.ULT(tot, acc))
+        fork_bool(I, st2, ovf, lambda s3: (I.event(s3, 'PANIC', 'attempt to add with overflow (Iterator::sum)'), cont(s3, PANIC)), lambda s3: k(s3, tot))
+    drain(I, st, it, depth, each, lambda st2, p, acc: cont(st2, PANIC if p is PANIC else BV(acc, ty)), z3.BitVecVal(0, w))
+
+
 @model(r' as (std::iter::)?Iterator>::count$', 'Iterator::count')
 def m_count(I, st, c, args, cont, depth, site):
     it = to_iter(I, st, args[0])
